@@ -1,6 +1,7 @@
 package simrt
 
 import (
+	"runtime"
 	"unsafe"
 )
 
@@ -203,6 +204,9 @@ func Select(hasDefault bool, cases ...selCase) int {
 		}
 		if hasDefault {
 			return -1
+		}
+		if reaping {
+			runtime.Goexit()
 		}
 		fatalf("blocking select outside a simulated world")
 	}
